@@ -4,12 +4,13 @@ import QibProofs.Lemmas.TNetBridgeDense
 import QibProofs.Lemmas.TNetTreePermTree
 import QibProofs.Lemmas.TNetBridgeFinset
 import QibProofs.Lemmas.TNetTreeBuildOK
+import QibProofs.Lemmas.TNetTreePrep
 /-!
 C07 — Network contraction is independent of strategy and equals the defining sum: theorems about the EXECUTABLE model
 (`QibModel/TNet.lean`, driver `drv_tnet`). Statements only; proofs are in `QibProofs/Lemmas/TNetBridgeRel.lean`,
 `TNetEinsumSound.lean`, `TNetEinsumData.lean`, `TNetTreeCert.lean`, `TNetTreeStruct.lean`, `TNetTreeSound.lean`,
 `TNetTreeRoot.lean`, `TNetTreeData.lean`, `TNetEinsumCert.lean`, `TNetEinsumCertMain.lean`, `TNetBridgeDense.lean`, `TNetTreePerm.lean`, `TNetTreePermTree.lean`, `TNetBridgeFinset.lean`, `TNetTreeBuildScan.lean`, `TNetTreeBuildAssign.lean`,
-`TNetTreeBuildInv.lean`, `TNetTreeBuildNode.lean`, `TNetTreeBuildOK.lean`.
+`TNetTreeBuildInv.lean`, `TNetTreeBuildNode.lean`, `TNetTreeBuildOK.lean`, `TNetTreePrepPerm.lean`, `TNetTreePrep.lean`.
 
 `RepOK net` is what Python dictionaries and the constructors guarantee (unique keys, `len(shape) == len(bids)`, sorted
 tensor ids of a bond); with it `isConsistent net = .ok true` is the declarative well-formedness `WF net`
@@ -245,6 +246,37 @@ theorem C07_tree_dense {net : Net} {data : Data} (hrep : RepOK net) (hcd : isCon
     toFullTensor r am = fullTensor net (dataAcc data) :=
   contractTree_dense hrep hcd hct hok hroot
 
+/-- **The tree evaluated by `contract_tree` is always certified**: for a consistent network with consistent data and a
+scaffold with at least two leaves that is a binary tree over all real tensors (`ScaffoldFull`: every real tensor id
+exactly once), the tree after the axes-map computation and the root permutation passes `treeOKList` and `rootOK`
+(hence also `rootOKStrong`). The per-sample certificate checks of the harness can never fail on such inputs. -/
+theorem C07_contractTree_certified {net : Net} {data : Data} (hrep : RepOK net)
+    (hcd : isConsistentData net data = .ok true) {sl sr : Scaffold} {r : DT Int} {am : List Nat} {t : Tree}
+    (hct : contractTree net data (.node sl sr) = .ok (r, am, t)) (hfull : ScaffoldFull net (.node sl sr)) :
+    (∀ x ∈ treeOKList net t, x = true) ∧ rootOK net t am = true :=
+  contractTree_certified hrep hcd hct hfull
+
+/-- **Tree contraction along ANY pairwise scaffold equals the defining sum** (no certificate hypothesis; every consistent
+network – hyper-bonds, multi-edges, traces, shared open legs; every binary bracketing / order of the real tensors with
+at least two leaves): whatever `contractTree` returns expands to the dense tensor of the defining sum. -/
+theorem C07_tree_total {net : Net} {data : Data} (hrep : RepOK net) (hcd : isConsistentData net data = .ok true)
+    {sl sr : Scaffold} {r : DT Int} {am : List Nat} {t : Tree}
+    (hct : contractTree net data (.node sl sr) = .ok (r, am, t)) (hfull : ScaffoldFull net (.node sl sr)) :
+    toFullTensor r am = fullTensor net (dataAcc data) :=
+  contractTree_total hrep hcd hct hfull
+
+/-- **Strategy independence** (no certificate hypothesis): single-shot contraction and tree contraction along any two
+scaffolds return (tensor, axes map) pairs that expand to the same dense tensor. -/
+theorem C07_strategy_independent {net : Net} {data : Data} (hrep : RepOK net)
+    (hcd : isConsistentData net data = .ok true) {r0 : DT Int} {am0 : List Nat}
+    (hce : contractEinsum net data = .ok (r0, am0))
+    {sl sr sl' sr' : Scaffold} {r1 r2 : DT Int} {am1 am2 : List Nat} {t1 t2 : Tree}
+    (h1 : contractTree net data (.node sl sr) = .ok (r1, am1, t1)) (hf1 : ScaffoldFull net (.node sl sr))
+    (h2 : contractTree net data (.node sl' sr') = .ok (r2, am2, t2)) (hf2 : ScaffoldFull net (.node sl' sr')) :
+    toFullTensor r0 am0 = toFullTensor r1 am1 ∧ toFullTensor r1 am1 = toFullTensor r2 am2 := by
+  rw [C07_einsum_dense hrep hcd hce, C07_tree_total hrep hcd h1 hf1, C07_tree_total hrep hcd h2 hf2]
+  exact ⟨rfl, rfl⟩
+
 /-- **Logical shape**: the expanded contraction result has the shape the network reports (`netShape`, the shape of the
 virtual tensor), which is the shape of the dense defining sum. -/
 theorem C07_shape {net : Net} {data : Data} (hrep : RepOK net) (hcd : isConsistentData net data = .ok true)
@@ -294,6 +326,8 @@ example : (match buildContractionTree exNet (.node (.leaf 0) (.leaf 1)) with
         (treeEval (tensorDict exNet exData) t).toBool
     | .error _ => false) = true := by decide +kernel
 example : (buildContractionTree exNet (.node (.leaf 1) (.leaf 0))).toBool = true := by decide +kernel
+example : ScaffoldFull exNet (.node (.leaf 1) (.leaf 0)) := ⟨by decide, by decide +kernel⟩
+example : (contractTree exNet exData (.node (.leaf 1) (.leaf 0))).toBool = true := by decide +kernel
 /-- a non-trivial value: the entry at the logical index (1,1,0,1) -/
 example : full exNet (dataAcc exData) [1, 1, 0, 1] = -899 := by decide +kernel
 example : full exNet (dataAcc exData) [0, 1, 0, 1] = 0 := by decide +kernel
